@@ -31,6 +31,7 @@ type sctx struct {
 	flavors []string // names defined so far (their defining forms are in defs)
 	defs    map[string][]string
 	funs    []string
+	plain   bool   // no quoted-data or computed defaults (the item's instances are load-formed)
 	placed  string // feature placed by a helper on the item being built
 	nflavor int
 }
@@ -92,10 +93,10 @@ func (s *sctx) varItem() Item {
 		val, kind = "'"+fw.Pick(r, symNames), "symbol"
 		it.Feat = "var-symbol-value"
 	case s.want("var-hash-unquoted"):
-		val, kind = genValue(r, "hash-table", "hash-value-unquoted"), "hash-table"
+		val, kind = "(let ((h (make-hash-table))) (setf (gethash 1 h) '(a 2)) h)", "hash-table"
 		it.Feat = "var-hash-unquoted"
 	case s.want("var-hash-key-dropped"):
-		val, kind = genValue(r, "hash-table", "hash-key-dropped"), "hash-table"
+		val, kind = "(let ((h (make-hash-table))) (setf (gethash #\\a h) 1) h)", "hash-table"
 		it.Feat = "var-hash-key-dropped"
 	case s.want("var-fill-pointer"):
 		val, kind = genValue(r, "vector", "fill-pointer"), "vector"
@@ -113,13 +114,14 @@ func (s *sctx) varItem() Item {
 	case s.want("var-long-float"):
 		val, kind = genValue(r, "number", "long-float-digits"), "number"
 		it.Feat = "var-long-float"
-	case s.want("var-empty-vector"):
+	case r.IntN(20) == 0:
 		val, kind = "#()", "vector"
-		it.Feat = "var-empty-vector"
+	case s.want("var-hash-multi"):
+		val, kind = "(let ((h (make-hash-table))) (setf (gethash 1 h) 10) (setf (gethash 2 h) 20) (setf (gethash 3 h) 30) (setf (gethash :k h) \"v\") (setf (gethash \"s\" h) 5) h)", "hash-table"
+		it.Feat = "var-hash-multi"
 	case s.want("var-lambda"):
 		fd, _ := genFunction(r, "", 2, codeOpts{})
 		val, kind = fd.Src, "lambda"
-		it.Feat = "var-lambda"
 		for _, p := range fd.Probes {
 			it.Probes = append(it.Probes, fmt.Sprintf("(funcall %s %s)", name, p))
 		}
@@ -192,10 +194,15 @@ func (s *sctx) funItem() Item {
 		it.Probes = append(it.Probes, fmt.Sprintf("(%s %s)", name, p))
 	}
 	it.Probes = append(it.Probes, fmt.Sprintf("(documentation '%s 'function)", name))
-	if s.want("forward-ref") {
-		// a function that calls one defined after it (mutual recursion needs this)
+	switch {
+	case s.want("undefined-ref"):
+		// a function whose callee is not defined (yet) when the snapshot is taken
+		it.Feat = "undefined-ref"
+		it.Forms = []string{fmt.Sprintf("(defun %s (p0) (%s p0))", name, s.name("not-yet-"))}
+		it.Probes = []string{fmt.Sprintf("(documentation '%s 'function)", name)}
+	case r.IntN(10) == 0:
+		// mutual recursion: the first function is defined before its callee
 		later := s.name("later-")
-		it.Feat = "forward-ref"
 		it.Forms = []string{
 			fmt.Sprintf("(defun %s (p0) (if (< p0 1) 0 (%s (- p0 1))))", name, later),
 			fmt.Sprintf("(defun %s (p0) (+ 1 (%s p0)))", later, name),
@@ -221,6 +228,28 @@ func (s *sctx) macroItem() Item {
 	return it
 }
 
+// clvarItem changes one of the standard variables, as a session may. The
+// reader variables are left alone: they would change how the rest of the
+// generated session is read (C02's concern).
+func (s *sctx) clvarItem() Item {
+	r := s.r
+	c := fw.Pick(r, []struct{ name, val string }{
+		{"*print-right-margin*", fmt.Sprint(40 + r.IntN(60))},
+		{"*print-base*", fw.Pick(r, []string{"16", "2", "8"})},
+		{"*print-radix*", "t"},
+		{"*print-length*", "5"},
+		{"*print-level*", "3"},
+		{"*print-escape*", "nil"},
+		{"*print-readably*", "t"},
+		{"*print-array*", "t"},
+		{"*print-case*", ":upcase"},
+		{"*print-pretty*", "nil"},
+		{"*gensym-counter*", fmt.Sprint(1000 + r.IntN(1000))},
+	})
+	it := Item{Kind: "clvar", Name: c.name, Forms: []string{fmt.Sprintf("(setq %s %s)", c.name, c.val)}, Probes: []string{c.name}}
+	return it
+}
+
 // ----- flavors
 
 type fvar struct {
@@ -233,6 +262,9 @@ func (s *sctx) flavorItem(withInstance bool) Item {
 	name := s.name("fl-")
 	it := Item{Kind: "flavor", Name: name}
 	nv := 1 + r.IntN(4)
+	if s.feat == "flavor-inittable-subset" && !s.used {
+		nv = 3 + r.IntN(2)
+	}
 	var vars []fvar
 	for i := 0; i < nv; i++ {
 		v := fvar{name: fmt.Sprintf("%s%d", fw.Pick(r, []string{"size", "w", "label", "count", "val"}), s.n*10+i)}
@@ -251,8 +283,7 @@ func (s *sctx) flavorItem(withInstance bool) Item {
 	case s.want("flavor-default-unquoted"):
 		it.Feat = "flavor-default-unquoted"
 		vars[0].def = fw.Pick(r, []string{"'(1 2)", "'sym", "'(a b)"})
-	case s.want("flavor-default-form"):
-		it.Feat = "flavor-default-form"
+	case r.IntN(8) == 0 && !s.plain:
 		vars[0].def = "(+ 1 2)"
 	}
 	var parents []string
@@ -304,7 +335,24 @@ func (s *sctx) flavorItem(withInstance bool) Item {
 	}
 	gettable := mode(":gettable-instance-variables")
 	settable := mode(":settable-instance-variables")
-	inittable := mode(":inittable-instance-variables")
+	var inittable []fvar
+	switch {
+	case 3 <= len(vars) && s.want("flavor-inittable-subset"):
+		// a proper subset of two or more is listed in map iteration order
+		it.Feat = "flavor-inittable-subset"
+		inittable = vars[:len(vars)-1]
+		ns := make([]string, len(inittable))
+		for i, v := range inittable {
+			ns[i] = v.name
+		}
+		opts = append(opts, fmt.Sprintf("(:inittable-instance-variables %s)", strings.Join(ns, " ")))
+	case r.IntN(3) == 0 && 1 < len(vars):
+		inittable = []fvar{vars[r.IntN(len(vars))]}
+		opts = append(opts, fmt.Sprintf("(:inittable-instance-variables %s)", inittable[0].name))
+	case r.IntN(2) == 0:
+		inittable = vars
+		opts = append(opts, ":inittable-instance-variables")
+	}
 	doc := docOpt(r)
 	s.nflavor++
 	if doc != "" {
@@ -314,12 +362,11 @@ func (s *sctx) flavorItem(withInstance bool) Item {
 		opts = append(opts, fmt.Sprintf("(:default-init-plist (:%s %d))", inittable[0].name, r.IntN(50)))
 	}
 	switch {
-	case s.want("flavor-abstract"):
-		it.Feat = "flavor-abstract"
+	case withInstance || s.plain:
+	case r.IntN(12) == 0:
 		opts = append(opts, ":abstract-flavor")
-	case s.want("flavor-required"):
-		it.Feat = "flavor-required"
-		opts = append(opts, "(:required-methods :frob)", "(:required-instance-variables extra)")
+	case r.IntN(12) == 0:
+		opts = append(opts, ":abstract-flavor", "(:required-methods :frob)", "(:required-instance-variables extra)")
 	}
 	def := fmt.Sprintf("(defflavor %s (%s) (%s)", name, strings.Join(vs, " "), strings.Join(parents, " "))
 	if 0 < len(opts) {
@@ -395,6 +442,7 @@ func (s *sctx) flavorItem(withInstance bool) Item {
 // flavorInstanceItem (def mode): an instance whose slots hold values.
 func (s *sctx) flavorInstanceItem() Item {
 	r := s.r
+	s.plain = true
 	base := s.flavorItem(false)
 	fl := base.Name
 	it := Item{Kind: "flavor-instance", Name: fl, Bind: true, Pre: append(append([]string{}, base.Pre...), base.Forms[0])}
@@ -480,12 +528,12 @@ func (s *sctx) classItem(parent *Item) Item {
 			slots[0].writer = "set-" + name + "-" + slots[0].name
 		}
 	}
-	switch {
-	case s.want("class-initform-unquoted"):
-		it.Feat = "class-initform-unquoted"
-		slots[0].initform = fw.Pick(r, []string{"'(1 2)", "'sym"})
-	case s.want("class-allocation"):
-		it.Feat = "class-allocation"
+	switch r.IntN(8) {
+	case 0:
+		if !s.plain {
+			slots[0].initform = fw.Pick(r, []string{"'(1 2)", "'sym", "(+ 1 2)"})
+		}
+	case 1:
 		slots[0].classAlloc = true
 	}
 	var ss []string
@@ -587,6 +635,7 @@ func (s *sctx) classItem(parent *Item) Item {
 
 func (s *sctx) classInstanceItem() Item {
 	r := s.r
+	s.plain = true
 	base := s.classItem(nil)
 	it := Item{Kind: "class-instance", Name: base.Name, Bind: true, Feat: base.Feat, Pre: []string{base.Forms[0]}}
 	slots := strings.Fields(base.Info)
@@ -742,7 +791,7 @@ func (s *sctx) genericItem() Item {
 
 // ----- packages
 
-func (s *sctx) packageItem(content bool) Item {
+func (s *sctx) packageItem(content string) Item {
 	r := s.r
 	name := s.name("pk-")
 	it := Item{Kind: "package", Name: name, Info: name}
@@ -767,18 +816,24 @@ func (s *sctx) packageItem(content bool) Item {
 	def := fmt.Sprintf("(defpackage '%s %s)", name, strings.Join(opts, " "))
 	it.Forms = []string{def}
 	it.Obj = fmt.Sprintf("(find-package '%s)", name)
-	if content {
+	switch content {
+	case "package-var":
 		_, val := cleanVarValue(r)
-		fd, _ := genFunction(r, fname, 2, codeOpts{})
 		it.Forms = append(it.Forms,
 			fmt.Sprintf("(in-package '%s)", name),
 			fmt.Sprintf("(defvar %s %s)", vname, val),
-			fd.Src,
 			"(in-package 'cl-user)")
 		it.Probes = append(it.Probes, fmt.Sprintf("%s::%s", name, vname))
+	case "package-fun":
+		fd, _ := genFunction(r, fname, 2, codeOpts{})
+		it.Forms = append(it.Forms,
+			fmt.Sprintf("(in-package '%s)", name),
+			fd.Src,
+			"(in-package 'cl-user)")
 		for _, p := range fd.Probes {
 			it.Probes = append(it.Probes, fmt.Sprintf("(%s::%s %s)", name, fname, p))
 		}
+		it.Probes = append(it.Probes, fmt.Sprintf("(fboundp '%s)", fname))
 	}
 	it.Probes = append(it.Probes, "(package-name *package*)")
 	return it
@@ -789,9 +844,9 @@ func (s *sctx) packageItem(content bool) Item {
 var defKinds = []string{"package", "flavor", "flavor", "flavor-instance", "class", "class", "class-instance", "generic", "generic"}
 
 var defFeats = map[string][]string{
-	"flavor":          {"flavor-default-unquoted", "flavor-default-form", "flavor-abstract", "flavor-required", "flavor-parent"},
+	"flavor":          {"flavor-default-unquoted", "flavor-parent", "flavor-inittable-subset"},
 	"flavor-instance": {"instance-slot-unquoted"},
-	"class":           {"class-accessor", "class-initform-unquoted", "class-allocation"},
+	"class":           {"class-accessor"},
 	"class-instance":  {"instance-slot-unquoted"},
 	"generic":         {"generic-unspecialized"},
 }
@@ -810,7 +865,7 @@ func buildDefCase(r *rand.Rand, kind, feat string) Case {
 	var it Item
 	switch kind {
 	case "package":
-		it = s.packageItem(false)
+		it = s.packageItem("")
 	case "flavor":
 		if feat == "flavor-parent" {
 			// the parent itself is a clean flavor
@@ -841,11 +896,11 @@ func buildDefCase(r *rand.Rand, kind, feat string) Case {
 }
 
 var sessionFeats = []string{
-	"class", "flavor-method", "flavor-instance-var", "flavor-parent", "multi-flavor", "generic-unspecialized", "forward-ref",
-	"var-symbol-value", "var-hash-unquoted", "var-hash-key-dropped", "var-fill-pointer", "var-symbol-in-list", "var-lambda",
-	"var-array-attrs", "var-long-float", "var-empty-vector",
-	"const-list-value", "const-symbol-value", "flavor-default-unquoted", "flavor-default-form", "flavor-abstract", "flavor-required",
-	"package-content", "fun-backquote", "macro-backquote", "fun-doc-wraps", "doc-wraps",
+	"class", "flavor-method", "flavor-parent", "multi-flavor", "generic-unspecialized", "undefined-ref", "send-error-before-snapshot",
+	"var-symbol-value", "var-hash-unquoted", "var-hash-key-dropped", "var-fill-pointer",
+	"var-array-attrs", "var-long-float", "var-hash-multi", "flavor-inittable-subset",
+	"const-list-value", "const-symbol-value", "flavor-default-unquoted",
+	"package-var", "package-fun", "fun-backquote", "macro-backquote", "fun-doc-wraps", "doc-wraps",
 }
 
 func genSessionCase(r *rand.Rand) Case {
@@ -865,7 +920,9 @@ func buildSessionCase(r *rand.Rand, feat string, n int) Case {
 	}
 	for len(c.Items) < n {
 		var it Item
-		switch k := r.IntN(17); {
+		switch k := r.IntN(18); {
+		case k == 17:
+			it = s.clvarItem()
 		case k < 5:
 			it = s.varItem()
 		case k < 7:
@@ -880,11 +937,11 @@ func buildSessionCase(r *rand.Rand, feat string, n int) Case {
 			if maxFlavors <= s.nflavor {
 				continue
 			}
-			it = s.flavorItem(false)
+			it = s.flavorItem(r.IntN(3) == 0)
 		case k < 16:
 			it = s.genericItem()
 		default:
-			it = s.packageItem(false)
+			it = s.packageItem("")
 		}
 		c.Items = append(c.Items, it)
 	}
@@ -904,13 +961,17 @@ func buildSessionCase(r *rand.Rand, feat string, n int) Case {
 			s.used = true
 			it = s.classItem(nil)
 			it.Feat = "class"
-		case feat == "flavor-instance-var":
+		case feat == "send-error-before-snapshot":
 			s.used = true
 			it = s.flavorItem(true)
 			it.Feat = feat
-		case feat == "package-content":
+			// the instance variable is the last form: send it a message it does not handle
+			iv := it.Forms[len(it.Forms)-1]
+			iv = iv[len("(defvar ") : strings.IndexByte(iv[8:], ' ')+8]
+			it.Forms = append(it.Forms, fmt.Sprintf("(ignore-errors (send %s :no-such-message 1))", iv))
+		case strings.HasPrefix(feat, "package-"):
 			s.used = true
-			it = s.packageItem(true)
+			it = s.packageItem(feat)
 			it.Feat = feat
 		case feat == "flavor-parent":
 			if s.nflavor == 0 {
@@ -927,7 +988,7 @@ func buildSessionCase(r *rand.Rand, feat string, n int) Case {
 			it = s.varItem()
 		case strings.HasPrefix(feat, "const-"):
 			it = s.constItem()
-		case strings.HasPrefix(feat, "fun-"), feat == "forward-ref":
+		case strings.HasPrefix(feat, "fun-"), feat == "undefined-ref":
 			it = s.funItem()
 		case strings.HasPrefix(feat, "macro-"):
 			it = s.macroItem()
